@@ -533,7 +533,7 @@ def r10_omen_loaders_complete(ctx, rule):
                                 'of IP.level / CP.level / LN.level; a record dropped by its level makes the string unscorable '
                                 '(-1) here while the trainer and the other reader still give its level', None, st)
     if ctx.floor(rule, OMEN_LOADERS[0], n_loops, 4, 'line loops in the OMEN loaders') and \
-            ctx.floor(rule, OMEN_LOADERS[0], n_stores, 6, 'table stores in the OMEN loaders') and not bad:
+            ctx.floor(rule, OMEN_LOADERS[0], n_stores, 4, 'table stores in the OMEN loaders') and not bad:
         ctx.ok(rule, OMEN_LOADERS[0], 'all %d table stores in %d loader loops are unconditional up to dispatch/initialisation'
                % (n_stores, n_loops))
 
